@@ -159,6 +159,41 @@ theorem run_url_close (cur : Bytes) (us : List Bytes) :
   intro fuel i rest
   simp [scanAux, step, N, Css.isWs, Css.isNewline]
 
+/-- a control byte inside an unquoted url that is none of the bytes handled earlier by `step` -/
+def ctlB (b : UInt8) : Bool :=
+  (decide (b < 32) || b == 127) && b != 41 && !Css.isWs b && b != 34 && b != 39 && b != 40
+
+theorem run_url_ctl1 (b : UInt8) (h : ctlB b = true) (cur : Bytes) (us : List Bytes) :
+    Run ⟨.url, [41], [], cur, false, us⟩ [b] ⟨.badUrl, [41], [], [], false, us⟩ := by
+  intro fuel i rest
+  simp only [ctlB, Bool.and_eq_true, bne_iff_ne, ne_eq, Bool.not_eq_true'] at h
+  obtain ⟨⟨⟨⟨⟨h1, h2⟩, h3⟩, h4⟩, h5⟩, h6⟩ := h
+  have h1' : b < 32 ∨ b = 127 := by simpa using h1
+  simp [scanAux, step, h1', h2, h3, h4, h5, h6]
+
+/-- bytes that the "remnants of a bad url" state just consumes -/
+def badB (b : UInt8) : Bool := b != 41 && b != 92
+
+theorem run_bad1 (b : UInt8) (h : badB b = true) (us : List Bytes) :
+    Run ⟨.badUrl, [41], [], [], false, us⟩ [b] ⟨.badUrl, [41], [], [], false, us⟩ := by
+  intro fuel i rest
+  simp only [badB, Bool.and_eq_true, bne_iff_ne, ne_eq] at h
+  simp [scanAux, step, h.1, h.2]
+
+theorem run_bad (x : Bytes) (h : x.all badB = true) (us : List Bytes) :
+    Run ⟨.badUrl, [41], [], [], false, us⟩ x ⟨.badUrl, [41], [], [], false, us⟩ := by
+  induction x with
+  | nil => exact Run.nil _
+  | cons b x ih =>
+    simp only [List.all_cons, Bool.and_eq_true] at h
+    have := Run.append (run_bad1 b h.1 us) (ih h.2)
+    simpa using this
+
+theorem run_bad_close (us : List Bytes) :
+    Run ⟨.badUrl, [41], [], [], false, us⟩ [41] (N [] us) := by
+  intro fuel i rest
+  simp [scanAux, step, N]
+
 theorem scan_done (id : Bytes) (us : List Bytes) (fuel i : Nat) (post : Bytes) :
     scanAux (fuel + 1) (N id us) i (59 :: post) = some (i, us) := by
   simp [scanAux, step, N]
@@ -631,16 +666,64 @@ theorem goScheme_of_scheme (b : UInt8) (x y : Bytes) (hb : Whatwg.isAlpha b = tr
 theorem schemes_lower' : ∀ t ∈ cssUrlSchemes, t.all Proofs.Url.isLowerLetter = true ∧ t ∈ Css.cssAllowedSchemes := by
   decide
 
-theorem urlAllowed_of_safe (parseOk : Bytes → Bool) (u : Bytes) (h : urlIsSafe parseOk u = true)
-    (hsp : (32 : UInt8) ∉ u) : Css.urlAllowed u = true := by
+/-- The part in front of the first `#` of a URL that `urlIsSafe` accepts has no control byte. -/
+theorem noCTL_of_safe (parseOk : Bytes → Bool) (u : Bytes) (h : urlIsSafe parseOk u = true) :
+    ∀ b ∈ beforeHash u, ¬ (b < 32 ∨ b = 127) := by
   simp only [urlIsSafe, parseChecks, Bool.and_eq_true, Bool.not_eq_true'] at h
-  obtain ⟨⟨_, hctl, _⟩, hsch⟩ := h
-  have hb : ∀ b ∈ u, ¬ b < 0x20 ∧ b ≠ 0x20 := by
+  obtain ⟨⟨_, hctl, _⟩, _⟩ := h
+  intro b hb
+  simp only [hasCTL, List.any_eq_false, Bool.or_eq_true, decide_eq_true_eq, beq_iff_eq] at hctl
+  exact hctl b hb
+
+def factHead (b : UInt8) : Bool := (decide (b < 32) || b == 32) || !Whatwg.isC0OrSpace b
+set_option maxRecDepth 8000 in
+theorem factHead_all : ∀ n : Nat, n < 256 → factHead (UInt8.ofNat n) = true := by decide
+
+theorem head_facts (b : UInt8) (h1 : ¬ b < 32) (h2 : b ≠ 32) : Whatwg.isC0OrSpace b = false := by
+  have h := forall_byte (P := fun b => factHead b = true) factHead_all b
+  simpa [factHead, h1, h2] using h
+
+/-- Pre-processing only strips a (possibly empty) tail when the first byte is neither a C0 control nor a
+    space and no TAB / LF / CR occurs anywhere. -/
+theorem preprocess_prefix (u : Bytes) (hhead : ∀ a l, u = a :: l → Whatwg.isC0OrSpace a = false)
+    (htn : ∀ b ∈ u, Whatwg.isTabOrNewline b = false) : ∃ t, u = Whatwg.preprocess u ++ t := by
+  have e1 : u.dropWhile Whatwg.isC0OrSpace = u := by
+    cases u with
+    | nil => rfl
+    | cons a l => simp [hhead a l rfl]
+  have e2 : u = (u.reverse.dropWhile Whatwg.isC0OrSpace).reverse ++
+      (u.reverse.takeWhile Whatwg.isC0OrSpace).reverse := by
+    rw [← List.reverse_append, List.takeWhile_append_dropWhile, List.reverse_reverse]
+  refine ⟨(u.reverse.takeWhile Whatwg.isC0OrSpace).reverse, ?_⟩
+  simp only [Whatwg.preprocess, e1]
+  rw [List.filter_eq_self.mpr]
+  · exact e2
+  · intro b hb
+    have hm : b ∈ u := by
+      rw [e2]; exact List.mem_append_left _ hb
+    simp [htn b hm]
+
+theorem urlAllowed_of_safe (parseOk : Bytes → Bool) (u : Bytes) (h : urlIsSafe parseOk u = true)
+    (hws : ∀ b ∈ u, b ≠ 32 ∧ b ≠ 9 ∧ b ≠ 10 ∧ b ≠ 13) : Css.urlAllowed u = true := by
+  have hctl := noCTL_of_safe parseOk u h
+  simp only [urlIsSafe, parseChecks, Bool.and_eq_true, Bool.not_eq_true'] at h
+  obtain ⟨_, hsch⟩ := h
+  have hhead : ∀ a l, u = a :: l → Whatwg.isC0OrSpace a = false := by
+    intro a l e
+    by_cases ha : a = 35
+    · subst ha; decide
+    · have hm : a ∈ beforeHash u := by
+        subst e; simp [beforeHash, ha]
+      exact head_facts a (fun hlt => hctl a hm (Or.inl hlt)) (hws a (by subst e; simp)).1
+  have htn : ∀ b ∈ u, Whatwg.isTabOrNewline b = false := by
     intro b hb
-    simp only [hasCTL, List.any_eq_false, Bool.or_eq_true, decide_eq_true_eq, beq_iff_eq, not_or] at hctl
-    exact ⟨(hctl b hb).1, fun e => hsp (e ▸ hb)⟩
-  simp only [Css.urlAllowed, Whatwg.scheme, preprocess_id u hb]
-  cases u with
+    obtain ⟨_, h9, h10, h13⟩ := hws b hb
+    simp [Whatwg.isTabOrNewline, h9, h10, h13]
+  obtain ⟨t, hu⟩ := preprocess_prefix u hhead htn
+  simp only [Css.urlAllowed, Whatwg.scheme]
+  generalize Whatwg.preprocess u = s2 at hu
+  subst hu
+  cases s2 with
   | nil => rfl
   | cons b rest =>
     simp only
@@ -650,7 +733,8 @@ theorem urlAllowed_of_safe (parseOk : Bytes → Bool) (u : Bytes) (h : urlIsSafe
       split at hs
       · rename_i hba
         obtain ⟨x, y, rfl, hx, rfl⟩ := schemeState_some _ _ _ hs
-        rw [show b :: (x ++ 58 :: y) = b :: x ++ 58 :: y by simp, goScheme_of_scheme b x y hba hx] at hsch
+        rw [show b :: (x ++ 58 :: y) ++ t = b :: x ++ 58 :: (y ++ t) by simp,
+          goScheme_of_scheme b x (y ++ t) hba hx] at hsch
         simp only [List.any_eq_true] at hsch
         obtain ⟨t, ht, he⟩ := hsch
         obtain ⟨htl, htm⟩ := schemes_lower' t ht
@@ -691,14 +775,6 @@ theorem bg_facts (b : UInt8) (h : bgSet.contains b = false) :
   obtain ⟨⟨⟨⟨a, b⟩, c⟩, d⟩, e⟩ := h2
   exact ⟨a, b, c, d, e⟩
 
-theorem noCTL_of_safe (parseOk : Bytes → Bool) (u : Bytes) (h : urlIsSafe parseOk u = true) :
-    ∀ b ∈ u, ¬ (b < 32 ∨ b = 127) := by
-  simp only [urlIsSafe, parseChecks, Bool.and_eq_true, Bool.not_eq_true'] at h
-  obtain ⟨⟨_, hctl, _⟩, _⟩ := h
-  intro b hb
-  simp only [hasCTL, List.any_eq_false, Bool.or_eq_true, decide_eq_true_eq, beq_iff_eq] at hctl
-  exact hctl b hb
-
 theorem run_url_word (us : List Bytes) : Run (N [] us) [117, 114, 108] (N Css.urlIdent us) := by
   have := run_inert [117, 114, 108] (by decide) [] us
   have e : ([117, 114, 108] : Bytes).foldl identStep [] = Css.urlIdent := by decide
@@ -724,23 +800,56 @@ theorem bg_quoted (q : UInt8) (hq : q = 34 ∨ q = 39) (body : Bytes)
   have := Run.append r1 (Run.append r2 (Run.append r3 (Run.append r4 (Run.append r5 r6))))
   simpa using this
 
+def factBg2 (b : UInt8) : Bool := bgSet.contains b || (badB b && (ctlB b || urlB b))
+set_option maxRecDepth 8000 in
+theorem factBg2_all : ∀ n : Nat, n < 256 → factBg2 (UInt8.ofNat n) = true := by decide
+
+theorem bg_facts2 (b : UInt8) (h : bgSet.contains b = false) : badB b = true ∧ (ctlB b = true ∨ urlB b = true) := by
+  have h2 := forall_byte (P := fun b => factBg2 b = true) factBg2_all b
+  simp only [factBg2, h, Bool.false_or, Bool.and_eq_true, Bool.or_eq_true] at h2
+  exact h2
+
+/-- The body of an unquoted `url(` token whose bytes are all outside `bgSet`: either every byte is an ordinary
+    url byte and the body is accumulated, or the first control byte turns the token into a bad url, whose
+    remnants (no `)`, no backslash) are consumed without recording anything. -/
+theorem run_url_body (body : Bytes) (hbody : ∀ b ∈ body, bgSet.contains b = false) (cur : Bytes)
+    (us : List Bytes) :
+    Run ⟨.url, [41], [], cur, false, us⟩ body ⟨.url, [41], [], cur ++ body, false, us⟩ ∨
+    Run ⟨.url, [41], [], cur, false, us⟩ body ⟨.badUrl, [41], [], [], false, us⟩ := by
+  induction body generalizing cur with
+  | nil => left; simpa using Run.nil _
+  | cons b x ih =>
+    have hx : ∀ c ∈ x, bgSet.contains c = false := fun c hc => hbody c (List.mem_cons_of_mem _ hc)
+    rcases (bg_facts2 b (hbody b (by simp))).2 with hb | hb
+    · right
+      have hbad : x.all badB = true := List.all_eq_true.mpr fun c hc => (bg_facts2 c (hx c hc)).1
+      have := Run.append (run_url_ctl1 b hb cur us) (run_bad x hbad us)
+      simpa using this
+    · rcases ih hx (cur ++ [b]) with r | r
+      · left
+        have := Run.append (run_url1 b hb cur us) r
+        simpa using this
+      · right
+        have := Run.append (run_url1 b hb cur us) r
+        simpa using this
+
+/-- `url(body)`: either the body is recorded as a url (and it is allowed), or the token is a bad url and
+    nothing is recorded. -/
 theorem bg_unquoted (body : Bytes) (hbody : ∀ b ∈ body, bgSet.contains b = false)
-    (hctl : ∀ b ∈ body, ¬ (b < 32 ∨ b = 127)) (hsafe : Css.urlAllowed body = true) :
+    (hsafe : Css.urlAllowed body = true) :
     PartRun ([117, 114, 108, 40] ++ body ++ [41]) := by
   intro us
-  refine ⟨[], [body], ?_, by simp [hsafe]⟩
-  have hs : body.all urlB = true := by
-    apply List.all_eq_true.mpr
-    intro b hb
-    rcases (bg_facts b (hbody b hb)).2.2.2.2 with h | h
-    · exact absurd h (hctl b hb)
-    · exact h
   have r1 := run_url_word us
   have r2 := run_open_url us
-  have r4 := run_url body hs [] us
-  have r5 := run_url_close ([] ++ body) us
-  have := Run.append r1 (Run.append r2 (Run.append r4 r5))
-  simpa using this
+  rcases run_url_body body hbody [] us with r4 | r4
+  · refine ⟨[], [body], ?_, by simp [hsafe]⟩
+    have r5 := run_url_close ([] ++ body) us
+    have := Run.append r1 (Run.append r2 (Run.append r4 r5))
+    simpa using this
+  · refine ⟨[], [], ?_, rfl⟩
+    have r5 := run_bad_close us
+    have := Run.append r1 (Run.append r2 (Run.append r4 r5))
+    simpa using this
 
 theorem strip_shape (t pre suf : Bytes) (hp : hasPrefix t pre = true) (hs : hasSuffix t suf = true) :
     t = pre ++ trimSuffix (trimPrefix t pre) suf ++ suf ∨
@@ -766,14 +875,24 @@ theorem strip_shape (t pre suf : Bytes) (hp : hasPrefix t pre = true) (hs : hasS
       exact hl h.length_le
     simp [trimSuffix, this]
 
+def factBgWs (b : UInt8) : Bool := bgSet.contains b || (b != 32 && b != 9 && b != 10 && b != 13)
+set_option maxRecDepth 8000 in
+theorem factBgWs_all : ∀ n : Nat, n < 256 → factBgWs (UInt8.ofNat n) = true := by decide
+
+/-- space, TAB, LF and CR are in the set the url body may not contain -/
+theorem ws_out_of_bg (b : UInt8) (h : bgSet.contains b = false) : b ≠ 32 ∧ b ≠ 9 ∧ b ≠ 10 ∧ b ≠ 13 := by
+  have h2 := forall_byte (P := fun b => factBgWs b = true) factBgWs_all b
+  simp only [factBgWs, h, Bool.false_or, Bool.and_eq_true, bne_iff_ne, ne_eq] at h2
+  exact ⟨h2.1.1.1, h2.1.1.2, h2.1.2, h2.2⟩
+
 theorem bgCore_run (parseOk : Bytes → Bool) (t body : Bytes)
     (hstrip : stripUrl t Generated.validURLPrefixes Generated.validURLSuffixes = some body)
     (hbody : containsAny body bgSet = false) (hsafe : urlIsSafe parseOk body = true) : PartRun t := by
   have hb : ∀ b ∈ body, bgSet.contains b = false := by
     simpa [containsAny, List.any_eq_false] using hbody
-  have hsp : (32 : UInt8) ∉ body := fun hm => (bg_facts 32 (hb 32 hm)).2.2.1 rfl
+  have hws : ∀ b ∈ body, b ≠ 32 ∧ b ≠ 9 ∧ b ≠ 10 ∧ b ≠ 13 := fun b hm => ws_out_of_bg b (hb b hm)
   have h41 : (41 : UInt8) ∉ body := fun hm => (bg_facts 41 (hb 41 hm)).2.2.2.1 rfl
-  have hallowed := urlAllowed_of_safe parseOk body hsafe hsp
+  have hallowed := urlAllowed_of_safe parseOk body hsafe hws
   simp only [stripUrl, Generated.validURLPrefixes, Generated.validURLSuffixes] at hstrip
   split at hstrip
   · rename_i h
@@ -815,7 +934,7 @@ theorem bgCore_run (parseOk : Bytes → Bool) (t body : Bytes)
         simp only [Option.some.injEq] at hstrip
         rcases strip_shape t _ _ h.1 h.2 with e | ⟨r, e, hl, hr⟩
         · rw [hstrip] at e
-          rw [e]; exact bg_unquoted body hb (noCTL_of_safe parseOk body hsafe) hallowed
+          rw [e]; exact bg_unquoted body hb hallowed
         · rw [hstrip] at hr; subst hr
           have h2 := h.2
           rw [e] at h2
@@ -901,6 +1020,19 @@ theorem sanitize_declSafe (parseOk : Bytes → Bool) (p v : Bytes) :
     · simp [h] at hne
     · refine pair_good _ _ (List.all_eq_true.mpr fun b hb => (name_facts b (h b hb)).1)
         (fun hm => (name_facts 60 (h 60 hm)).2 rfl) (sanitizeValue_good parseOk _ v)
+
+/-- Non-vacuity of the two new paths: `background-image: url(#\x01)` is kept by the sanitiser and scanned as a
+    bad url (nothing recorded); `url("a#\x7f")` is kept and its body is recorded and allowed. -/
+example :
+    (sanitize (fun _ => true) [98, 97, 99, 107, 103, 114, 111, 117, 110, 100, 45, 105, 109, 97, 103, 101]
+      [117, 114, 108, 40, 35, 1, 41]).2 = [117, 114, 108, 40, 35, 1, 41] ∧
+    Css.scanDecl ([98, 97, 99, 107, 103, 114, 111, 117, 110, 100, 45, 105, 109, 97, 103, 101] ++ [58] ++
+      [117, 114, 108, 40, 35, 1, 41] ++ [59] ++ [120]) = some (24, []) := by decide
+example :
+    (sanitize (fun _ => true) [98, 97, 99, 107, 103, 114, 111, 117, 110, 100, 45, 105, 109, 97, 103, 101]
+      [117, 114, 108, 40, 34, 97, 35, 127, 34, 41]).2 = [117, 114, 108, 40, 34, 97, 35, 127, 34, 41] ∧
+    Css.scanDecl ([98, 97, 99, 107, 103, 114, 111, 117, 110, 100, 45, 105, 109, 97, 103, 101] ++ [58] ++
+      [117, 114, 108, 40, 34, 97, 35, 127, 34, 41] ++ [59] ++ [120]) = some (27, [[97, 35, 127]]) := by decide
 
 /-- Style-attribute items: after the browser's attribute-value decoding the item is `name:value;` of the
     sanitised pair. -/
